@@ -56,6 +56,14 @@ class Scenario:
             self.t0 = int(round(self.t0))
             if rng.random() < 0.5:
                 self.area, self.m0 = rng.randint(1, 20), rng.randint(1, 200)
+        self.narrow = None
+        if self.numpy_inputs and rng.random() < 0.5:
+            # narrow integer numpy scalars (a uint8 / int16 column) next to Python-int step lengths: the values are exact, only
+            # the dtype is narrow; the library must not do its arithmetic in that dtype (area x step length may exceed it).
+            # Narrow FLOAT dtypes are not generated: the pinned library itself computes the first step in the dtype of a
+            # float32 / float16 feed amount (p * feed_mass[0]), i.e. the caller gets the float32 arithmetic he asked for.
+            self.narrow = "smallint"
+            self.area, self.m0 = rng.randint(1, 100), rng.randint(1, 1000)
         self.n = rng.randint(1, max_steps)
         if self.ideal and not coarse and long_runs and rng.random() < long_runs:
             self.n = rng.randint(1001, 1500)  # a long run (step-count dependent code paths)
@@ -103,6 +111,13 @@ class Scenario:
             if not (jt > 0 and math.isfinite(jt)):
                 raise ValueError("non-positive initial flux")
             self.dt = self.f0 * self.m0 / (jt * self.area)
+            if self.narrow == "smallint":
+                dt_int = rng.randint(1, 48)  # whole hours
+                m0_needed = dt_int * jt * self.area / self.f0
+                if 1 <= m0_needed <= 30000:
+                    self.m0 = max(1, int(round(m0_needed)))
+                    self.dt = dt_int
+                    self.f0 = dt_int * jt * self.area / self.m0
         except (Exception, guards.BudgetExceeded) as e:
             self.setup_error = repr(e)
             self.dt = gen.loguniform(rng, 1e-4, 1.0)
@@ -113,9 +128,15 @@ class Scenario:
             import numpy
 
             # numpy scalars (what array slicing / pandas hand to user code) are legitimate numbers as well
-            self.area, self.t0, self.m0, self.dt = numpy.float64(self.area), numpy.float64(self.t0), numpy.float64(self.m0), numpy.float64(self.dt)
+            if isinstance(self.dt, int):
+                self.area, self.t0, self.m0 = numpy.float64(self.area), numpy.float64(self.t0), numpy.float64(self.m0)
+            else:
+                self.area, self.t0, self.m0, self.dt = numpy.float64(self.area), numpy.float64(self.t0), numpy.float64(self.m0), numpy.float64(self.dt)
+        area_arg, m0_arg = self.area, self.m0
+        if self.narrow == "smallint":
+            area_arg, m0_arg = numpy.uint8(int(self.area)), numpy.int16(int(self.m0))
         self.conditions = Conditions(
-            membrane_area=self.area, initial_feed_temperature=self.t0, initial_feed_amount=self.m0,
+            membrane_area=area_arg, initial_feed_temperature=self.t0, initial_feed_amount=m0_arg,
             initial_feed_composition=self.x0, permeate_temperature=self.tp, permeate_pressure=self.pp,
             temperature_program=self.program,
         )
@@ -160,7 +181,7 @@ class Scenario:
         d = {
             "kind": self.kind, "mixture": self.mdesc, "model": self.model, "membrane": gen.describe_membrane(self.membrane),
             "conditions": gen.describe_conditions(self.conditions), "steps": self.n, "delta_hours": self.dt,
-            "precision": self.precision, "first_step_fraction": self.f0,
+            "precision": self.precision, "first_step_fraction": self.f0, "narrow_dtype": self.narrow,
         }
         if not self.ideal:
             d["curve_set"] = self.cs_desc
